@@ -1069,7 +1069,9 @@ func TestCheck(t *testing.T) {
 			"After EVERY event: all 12 base names x 5 case/port variants are resolved through the production path and compared with a first-claimant ownership model " +
 			"(I1 resolution, I2 frame, I3 delete), the TLS config from WrapGetConfigForClient and SNIVerifyOptions are compared with the owner's certificate / client CA " +
 			"(behaviourally: which client certificates verify) (I4); on a sample of events real requests go through the handler chain to per-cluster stub upstreams (I5) " +
-			"and real TLS handshakes are made against a listener using the wrapped GetConfigForClient (I6). Non-trivial = the history contains a collision, a move, a rename or a delete of a live cluster; distinct = hash of the event list.")
+			"and real TLS handshakes are made against a listener using the wrapped GetConfigForClient (I6). Concurrent part (names-under-update): 2 000 updates (thorough 20 000) that change one cluster's server-name list (6 volatile aliases in random subsets, order and case shuffled) " +
+			"while keeping 5 aliases and the cluster's own name, applied while 3-6 goroutines resolve the kept names and an untouched cluster's names through Manager.Get (case/port variants), " +
+			"WrapGetConfigForClient and the handler chain: a kept name must resolve to its cluster at every moment. Non-trivial = the history contains a collision, a move, a rename or a delete of a live cluster; distinct = hash of the event list.")
 		r.Assume("after a refused (conflicting) object the statement leaves open whether its non-conflicting part takes effect; both outcomes are accepted and the observed one is adopted")
 		r.Assume("SNI values carry no port (RFC 6066); port variants are exercised through the Host-header paths (handler chain, SNIVerifyOptions)")
 
@@ -1110,6 +1112,7 @@ func TestCheck(t *testing.T) {
 				r.Sample(map[string]interface{}{"history": i, "events": w.events, "final_owner_map": w.model.Owner})
 			}
 		})
+		namesUnderUpdate(r)
 		r.Set("histories_by_scenario_class", classCount)
 		r.Set("events_per_history", evPer)
 		r.Require(r.Counter("events") >= int64(nh*evPer*9/10), "too few events processed")
